@@ -22,6 +22,16 @@ IMPL = 'impl Analyzer'
 BY_NAME = 'b == (x.name@ == identifier.name@)'
 
 
+def rules_found_container_1():
+    """found_container_1 has its own rules (its closures look at resolution ids and dependency sets, not at names); shared with U-VARS,
+    which re-verifies the function under the same contract (use_variable reaches it through use_containee)"""
+    return [SR.sc4_iter_mut_find_expect('Container', 'b == (x.identifier.resolution_id == container_id)', find_label='C11.scope.container_found_by_resolution_id'),
+            SR.sc1_chain_find('Container', 'Container', 'b == !x.is_structure', '*r == *x', 'b == cycle@.contains(x.identifier.resolution_id)',
+                              filter_label='C11.scope.E416_names_a_constant', find_label='C11.scope.E416_names_a_constant_of_the_cycle'),
+            SR.r14_named('Container', 'b == (x.identifier.resolution_id == containee_id)', find_label='C11.scope.containee_found_by_resolution_id'),
+            SR.sc5_for_mut, SR.sc6_hashset_union]
+
+
 def build(u):
     u.features.append('allocator_api')   # signature of HashSet::clone (prelude/scope_hashset.rs)
     u.load_contracts('contracts/u_scope.vc')
@@ -55,13 +65,7 @@ def build(u):
     u.emit(F, 'struct UnresolvedPruning', pub_fields=True)
     u.emit(F, 'struct Pruning', pub_fields=True)
     u.include('spec/u_scope_spec.rs', kind='spec')
-    # found_container_1 has its own rules (its closures look at resolution ids and dependency sets, not at names)
-    RF = [SR.sc4_iter_mut_find_expect('Container', 'b == (x.identifier.resolution_id == container_id)', find_label='C11.scope.container_found_by_resolution_id'),
-          SR.sc1_chain_find('Container', 'Container', 'b == !x.is_structure', '*r == *x', 'b == cycle@.contains(x.identifier.resolution_id)',
-                            filter_label='C11.scope.E416_names_a_constant', find_label='C11.scope.E416_names_a_constant_of_the_cycle'),
-          SR.r14_named('Container', 'b == (x.identifier.resolution_id == containee_id)', find_label='C11.scope.containee_found_by_resolution_id'),
-          SR.sc5_for_mut, SR.sc6_hashset_union]
-    u.emit(F, IMPL, only=['found_container_1'], rules=RF)
+    u.emit(F, IMPL, only=['found_container_1'], rules=rules_found_container_1())
     u.emit(F, IMPL, only=['determine_container_depths'], rules=[SR.sc5_for_mut, SR.sc7_hashset_difference])
     structs = SR.sc1_chain_find('Container', 'Identifier', 'b == x.is_structure', '*r == x.identifier', BY_NAME,
                                 filter_label='C11.scope.structure_lookup_skips_constants', map_label='C11.scope.lookup_projects_the_declared_identifier',
